@@ -48,6 +48,11 @@ type c12Accept struct {
 	Cause    *byte    `json:"cause,omitempty"` // 5GSM cause, the only optional IE the table puts before the PDU address
 	UEIP     HexBytes `json:"ue_ipv4"`
 	After    []c12IE  `json:"after_pdu_address,omitempty"` // later rows of Table 8.3.2.1.1, in table order
+	// Later: information elements of a later release of TS 24.501 than the tables here know (Release 17 appended the
+	// service-level-AA container and the received MBS container, for instance), behind every element of the table.
+	// Coded by the general rules of TS 24.007 11.2.4: IEI 8x..Fx = one octet, 70..7F = TLV-E, otherwise TLV. A receiver
+	// ignores what it does not comprehend (TS 24.501 7.7.1); the address in front of them is what the network encoded.
+	Later []c12IE `json:"later_release_ies,omitempty"`
 	DLOpt    []c12IE  `json:"dl_nas_transport_optional,omitempty"`
 }
 
@@ -93,7 +98,9 @@ type c12Case struct {
 
 // ---------------------------------------------------------------- builders
 
-func (a c12Accept) build() ([]byte, error) {
+func (a c12Accept) build() ([]byte, error) { return a.buildL(true) }
+
+func (a c12Accept) buildL(withLater bool) ([]byte, error) {
 	acc := refid.Accept{PSI: a.PSI, PTI: a.PTI, SessionType: 1, SSCMode: a.SSC, QoSRules: a.QoSRules, AMBR: a.AMBR}
 	if a.Cause != nil {
 		acc.IEs = append(acc.IEs, refid.OptIE{IEI: 0x59, Value: []byte{*a.Cause}})
@@ -105,6 +112,27 @@ func (a c12Accept) build() ([]byte, error) {
 	b, err := acc.Encode()
 	if err != nil {
 		return nil, err
+	}
+	if withLater {
+		for _, ie := range a.Later {
+			switch {
+			case ie.IEI&0x80 != 0:
+				if len(ie.Value) != 1 {
+					return nil, fmt.Errorf("later-release type-1 element needs one half octet")
+				}
+				b = append(b, ie.IEI&0xF0|ie.Value[0]&0x0F)
+			case ie.IEI >= 0x70:
+				b = append(append(b, ie.IEI, byte(len(ie.Value)>>8), byte(len(ie.Value))), ie.Value...)
+			default:
+				if len(ie.Value) > 255 {
+					return nil, fmt.Errorf("later-release TLV element longer than 255 octets")
+				}
+				b = append(append(b, ie.IEI, byte(len(ie.Value))), ie.Value...)
+			}
+		}
+		if len(b) > 65535 {
+			return nil, fmt.Errorf("payload container too long")
+		}
 	}
 	var opt []refid.OptIE
 	for _, ie := range a.DLOpt {
@@ -330,6 +358,23 @@ func genAccept(t *rapid.T) c12Accept {
 		}
 		a.After = append(a.After, ie)
 	}
+	if rapid.IntRange(0, 3).Draw(t, "later_release") == 2 {
+		n := rapid.IntRange(1, 3).Draw(t, "later_n")
+		for i := 0; i < n; i++ {
+			l := fmt.Sprintf("later%d_", i)
+			iei := rapid.SampledFrom([]byte{0x72, 0x71, 0x74, 0x7A, 0x30, 0x1E, 0x61, 0x4B, 0xA0, 0xD0, 0xF0}).Draw(t, l+"iei")
+			ie := c12IE{IEI: iei}
+			switch {
+			case iei&0x80 != 0:
+				ie.Value = []byte{byte(rapid.IntRange(0, 15).Draw(t, l+"nibble"))}
+			case iei >= 0x70:
+				ie.Value = fill(t, rapid.OneOf(rapid.IntRange(0, 40), rapid.IntRange(200, 600)).Draw(t, l+"len"), l+"v")
+			default:
+				ie.Value = fill(t, rapid.OneOf(rapid.IntRange(0, 20), rapid.Just(255)).Draw(t, l+"len"), l+"v")
+			}
+			a.Later = append(a.Later, ie)
+		}
+	}
 	for i, s := range refid.DLNASTransportTable {
 		p := 3
 		if s.IEI == 0x12 { // PDU session ID accompanies N1 SM information in practice
@@ -477,7 +522,23 @@ func c12Oracle(c c12Case) ev.Verdict {
 		return v
 	}
 	// the specification-side parser must find the same address in what was just built
-	if p, err := refid.ParseProtectedAccept(nas); err != nil || !bytes.Equal(p.PDUAddrIPv4, a.UEIP) {
+	known := nas
+	if len(a.Later) > 0 {
+		for _, ie := range a.Later {
+			for _, s := range refid.AcceptTable {
+				if s.IEI == ie.IEI || (ie.IEI&0x80 != 0 && s.IEI == ie.IEI&0xF0) {
+					v.Skip = true // not a later-release element: the table knows this IEI
+					return v
+				}
+			}
+		}
+		if known, err = a.buildL(false); err != nil {
+			v.Skip = true
+			return v
+		}
+		v.Classes = append(v.Classes, "accept/later-release-IEs-behind-the-table")
+	}
+	if p, err := refid.ParseProtectedAccept(known); err != nil || !bytes.Equal(p.PDUAddrIPv4, a.UEIP) {
 		panic(fmt.Sprintf("harness error: reference parser disagrees with reference builder: %v", err))
 	}
 
